@@ -254,7 +254,7 @@ class UiEpisodes(Batch):
             "settings": settings,
             "knobs": knobs,
             "initial_text": text,
-            "n_events": r.choice([r.randint(3, 10), r.randint(8, 25), r.randint(20, 45)]),
+            "n_events": r.choice([r.randint(3, 10), r.randint(8, 25), r.randint(20, 45)]) * R.deep(r),
             "gen_seed": seed,
             "events": None,
         }
@@ -329,7 +329,7 @@ def gen_api(seed, isa=None, flavour=None, force=None):
         settings["ic"]["enable"] = True
     names = RISCV_INSP if isa == "riscv" else TOY_INSP
     ops = []
-    n = r.choice([r.randint(3, 10), r.randint(8, 25)])
+    n = r.choice([r.randint(3, 10), r.randint(8, 25)]) * R.deep(r)
     loaded = False
     for _ in range(n):
         k = r.random()
